@@ -277,6 +277,16 @@ type rlRangeOracle struct {
 func (o *rlRangeOracle) Name() string { return "rl-range" }
 func (o *rlRangeOracle) OnEvent(k *Kernel, ev *Event) {
 	switch ev.Point {
+	case "rl.bucket.create":
+		// (host, size of the table after the insertion, configured bound), emitted under the manager's lock
+		if len(ev.raw) > 2 {
+			n, _ := ev.raw[1].(int)
+			bound, _ := ev.raw[2].(int)
+			if bound > 0 && n > bound {
+				k.Violate("C16", "bounded", "limiter-table-over-bound", fmt.Sprintf("the per-host limiter table holds %d buckets after adding %v, configured bound %d", n, ev.raw[0], bound))
+			}
+			k.Probe("c16-limiter-table-insertions")
+		}
 	case "rl.take", "rl.refill", "rl.adjusted":
 		if len(ev.raw) < 6 {
 			return
